@@ -5,11 +5,13 @@ from .lib import PLUMBING, callee_allow, closure_args_of_call, lit_strs, operand
 from .lib_c08 import Flow, Origins, _rv_operands, map_stores, mutators, field_reads, field_writes, gen_role, root_of
 
 LEVEL = "other"
-TECHNIQUE = ("static analysis: source/sink flow and per-iteration edge dominance on gen_openapi's MIR, sibling agreement between the document iterator and the router, "
-             "decision-table extraction (method -> PathItem slot), who-reads census of `visible`, hash-order census with must-pass sort, effect check")
+TECHNIQUE = ("static analysis: source/sink flow (projection-carrying, mutation-aware slices) and per-iteration edge dominance on gen_openapi's MIR, role-anchored consumers of "
+             "router.endpoints (adaptor chain or loop), sibling agreement between the document iterator and the router, decision-table extraction (method -> PathItem slot), "
+             "who-reads census of `visible`, hash-order census with must-pass sort, effect check")
 LEVEL_TEXT = ("Decides on all paths of gen_openapi and of the router iterator: (R1) both scans use router.endpoints(Some(version)) with gen_openapi's own version, which json()/write() "
               "take from OpenApiDefinition.version set once from openapi()'s argument, and the iterator filters with the same ApiEndpointVersions::matches(handler.versions, version) "
-              "the router uses; (R2) nothing derived from an endpoint is written to the document unless that endpoint's `visible` is true in the same iteration, and the router/server "
+              "the router uses (as a branch in a filter_map, `bool::then`, or the predicate of `filter`); (R2) every consumer of router.endpoints(..) sees only endpoints whose `visible` is true — "
+              "the iterator is filtered on the element's `visible` (polarity checked) or a `for` loop tests it before any write to state that outlives the iteration — and the router/server "
               "never read `visible`; (R3) the operation goes to paths[iterator path], into the PathItem slot named like the method (8-row table, identity, covers every method the "
               "macro can emit), carries the endpoint's operation_id and is stored on every non-panicking path; (R4) every Static schema's dependencies are added to `definitions`, every "
               "Gen schema uses the one generator, both are flushed into components.schemas, error responses are stored under the name their reference was formatted from; (R4b) the dependencies of a Static schema are closed under $ref "
@@ -19,8 +21,9 @@ LEVEL_TEXT = ("Decides on all paths of gen_openapi and of the router iterator: (
               "the literal text of the `#/components/responses/` prefix (format templates are opaque to the extractor), uniqueness of generated schema names inside schemars.")
 LEVEL_NOTE = ("Trusts rustc MIR, the extractor, std/indexmap/schemars container semantics (BTreeMap iterates in key order, IndexMap in insertion order, schemars definitions are a BTreeMap), "
               "C05 (matches is exact) and C01/C02 (at most one handler per method and version).")
-EXPLANATION = ("SAME-SOURCE / SIBLINGS-AGREE over the version argument from openapi() to the iterator's filter closure; DOM per loop iteration for the visibility guard and closure-chain "
-               "inspection for iterator adapters; WHO-READS census of ApiEndpoint.visible; TABLE for method slots cross-checked with the macro crate's MethodType::as_str; "
+EXPLANATION = ("SAME-SOURCE / SIBLINGS-AGREE over the version argument from openapi() to the iterator's filter closure; every consumer of router.endpoints is classified by role "
+               "(the loop whose items become `paths` keys, the tag scan) and by idiom (filter adaptor with polarity, per-iteration DOM guard); loops, for_each closures, insert / entry().or_insert* "
+               "and stores through borrowed slots are treated alike via mutation-aware slices; WHO-READS census of ApiEndpoint.visible; TABLE for method slots cross-checked with the macro crate's MethodType::as_str; "
                "per-arm must-pass for definitions.extend; CENSUS of hash-ordered iteration with backward-slice containment in openapi.tags and must-pass sort; effect and shape facts.")
 TRUSTED = ["rustc nightly MIR", "mirfacts extractor", "rules/engine.py, rules/lib_c08.py", "BTreeMap / IndexMap / HashMap iteration-order contracts", "schemars SchemaGenerator (definitions in a BTreeMap)",
            "C05 ApiEndpointVersions::matches", "C01/C02 one handler per (path, method, version)"]
@@ -1296,4 +1299,41 @@ SELFTEST = [
     {"name": "filter-if-to-then", "kind": "benign",
      "edits": [(RT, "            if h.versions.matches(version) {\n                Some((m, h))\n            } else {\n                None\n            }", "            h.versions.matches(version).then(|| (m, h))")],
      "why": "behaviour-preserving: bool::then instead of if/else"},
+    # --- idioms the rules accept since the hardening round (each shape has a breaking twin below)
+    {"name": "visible-filter-on-iterator", "kind": "benign",
+     "edits": [(AD, "        for (path, method, endpoint) in self.router.endpoints(Some(version)) {\n" + _VIS, "        for (path, method, endpoint) in self.router.endpoints(Some(version)).filter(|(_, _, e)| e.visible) {\n")],
+     "why": "behaviour-preserving: `if !visible { continue }` at the top of the loop body == `.filter(|e| e.visible)` on the iterator"},
+    {"name": "visible-filter-negated", "kind": "mutant",
+     "edits": [(AD, "        for (path, method, endpoint) in self.router.endpoints(Some(version)) {\n" + _VIS, "        for (path, method, endpoint) in self.router.endpoints(Some(version)).filter(|(_, _, e)| !e.visible) {\n")],
+     "expect": ["C06.R2"], "why": "the iterator keeps exactly the unpublished endpoints"},
+    {"name": "tags-filter-negated", "kind": "mutant", "edits": [(AD, "            .filter(|(_, _, endpoint)| endpoint.visible)\n            .flat_map(", "            .filter(|(_, _, endpoint)| !endpoint.visible)\n            .flat_map(")],
+     "expect": ["C06.R2"], "why": "the tag scan lists the tags of unpublished endpoints only"},
+    {"name": "tags-keep-configured", "kind": "mutant", "edits": [(AD, ".filter(|tag| !self.tag_config.tags.contains_key(*tag))", ".filter(|tag| self.tag_config.tags.contains_key(*tag))")],
+     "expect": ["C06.R5"], "why": "configured tags appear twice in openapi.tags: equal sort keys, order of the duplicates follows hash order"},
+    {"name": "matches-filter-then-map", "kind": "benign",
+     "edits": [(RT, "        handlers.iter().filter_map(move |h| {\n            if h.versions.matches(version) {\n                Some((m, h))\n            } else {\n                None\n            }\n        })", "        handlers.iter().filter(move |h| h.versions.matches(version)).map(move |h| (m, h))")],
+     "why": "behaviour-preserving: filter_map(if p {Some(x)} else {None}) == filter(p).map(..)"},
+    {"name": "matches-filter-negated", "kind": "mutant",
+     "edits": [(RT, "        handlers.iter().filter_map(move |h| {\n            if h.versions.matches(version) {\n                Some((m, h))\n            } else {\n                None\n            }\n        })", "        handlers.iter().filter(move |h| !h.versions.matches(version)).map(move |h| (m, h))")],
+     "expect": ["C06.R1"], "why": "the iterator yields the handlers NOT served at v"},
+    {"name": "matches-named-flag-early-return", "kind": "benign",
+     "edits": [(RT, "            if h.versions.matches(version) {\n                Some((m, h))\n            } else {\n                None\n            }", "            let served = h.versions.matches(version);\n            if !served {\n                return None;\n            }\n            Some((m, h))")],
+     "why": "behaviour-preserving: named flag + early return instead of if/else"},
+    {"name": "operation-stored-by-assignment", "kind": "benign", "edits": [(AD, "method_ref.replace(operation);", "*method_ref = Some(operation);")],
+     "why": "behaviour-preserving: store through the borrowed slot instead of Option::replace (the old value is unused)"},
+    {"name": "flush-for-loop", "kind": "benign",
+     "edits": [(AD, "        root_schema.definitions.iter().for_each(|(key, schema)| {\n            schemas.insert(key.clone(), j2oas_schema(None, schema));\n        });\n", "        for (key, schema) in root_schema.definitions.iter() {\n            schemas.insert(key.clone(), j2oas_schema(None, schema));\n        }\n")],
+     "why": "behaviour-preserving: for_each -> for"},
+    {"name": "flush-for-loop-conditional", "kind": "mutant",
+     "edits": [(AD, "        root_schema.definitions.iter().for_each(|(key, schema)| {\n            schemas.insert(key.clone(), j2oas_schema(None, schema));\n        });\n", "        if self.tag_config.tags.is_empty() {\n            for (key, schema) in root_schema.definitions.iter() {\n                schemas.insert(key.clone(), j2oas_schema(None, schema));\n            }\n        }\n")],
+     "expect": ["C06.R4"], "why": "generated definitions are emitted only when no tags are configured: dangling $refs otherwise"},
+    {"name": "dependencies-recorded-in-loop", "kind": "benign",
+     "edits": [(AD, "                            definitions.extend(dependencies.clone());\n                            (None, schema.as_ref().clone())", "                            for (dep_name, dep_schema) in dependencies.iter() {\n                                definitions.insert(dep_name.clone(), dep_schema.clone());\n                            }\n                            (None, schema.as_ref().clone())")],
+     "why": "behaviour-preserving: extend(map.clone()) == inserting every (key, value) clone in order"},
+    {"name": "dependencies-recorded-conditionally", "kind": "mutant",
+     "edits": [(AD, "                            definitions.extend(dependencies.clone());\n                            (None, schema.as_ref().clone())", "                            for (dep_name, dep_schema) in dependencies.iter() {\n                                if dep_name.len() > 3 {\n                                    definitions.insert(dep_name.clone(), dep_schema.clone());\n                                }\n                            }\n                            (None, schema.as_ref().clone())")],
+     "expect": ["C06.R4"], "why": "dependencies with short names are not emitted: dangling $ref"},
+    {"name": "error-reference-only-4xx", "kind": "mutant",
+     "edits": [(AD, "                    operation.responses.responses.insert(\n                        openapiv3::StatusCode::Range(5),\n                        reference.clone(),\n                    );\n", "")],
+     "expect": ["C06.R4"], "why": "5xx responses are no longer documented"},
 ]
